@@ -49,7 +49,10 @@ EndClauses(r) ==
     << <<"reference-does-not-fail-here",
          \/ vm.status = "fail"
          \/ (vm.status = "run" /\ AtEnd(vm) /\ vm.vf # <<>>)
-         \/ (vm.status = "run" /\ ~AtEnd(vm) /\ (E(TRUE).status = "fail" \/ E(FALSE).status = "fail"))>>,
+         \* the property is about the outcome, not the position: the implementation may notice earlier than the
+         \* reference that the rest of the script cannot succeed (its CHECKSIG scans the whole script and so meets a
+         \* truncated push behind it at once); what must hold is that the reference, continued from here, fails too
+         \/ (vm.status = "run" /\ ~AtEnd(vm) /\ (Run(vm, WithLz(ctx, TRUE)).status = "fail" \/ Run(vm, WithLz(ctx, FALSE)).status = "fail"))>>,
        <<"failure-is-validation-error", IsValidationError(r.out)>>,
        <<"error-state-within-limits",
          (r.out.nstack >= 0) => (r.out.nstack <= MAX_STACK + 3 /\ r.out.nops <= MAX_OPS + 20)>> >>
